@@ -1441,7 +1441,7 @@ func rewardsNodeHistory(c *Ctx, id int) {
 				call("liq-additional-reward", g.User5.Address, types.LiquidityContract, types.ZnnTokenStandard, nil, definition.ABILiquidity.PackMethodPanic(definition.SetAdditionalRewardMethodName,
 					znn(10*k), znn(100*k)))
 			}
-		case x < 77 && newPillarTried: // the late pillar leaves again (only inside its revoke window; otherwise the call fails)
+		case x < 77 && newPillarTried && !cfg.churn: // the late pillar leaves again (only inside its revoke window; otherwise the call fails)
 			call("pillar-revoke", g.Pillar7.Address, types.PillarContract, types.ZnnTokenStandard, nil, definition.ABIPillars.PackMethodPanic(definition.RevokeMethodName, "TEST-pillar-late"))
 		case x < 81: // anyone may call Update
 			ca := rnContracts[c.R.Intn(len(rnContracts))]
@@ -1511,10 +1511,10 @@ func rewardsNodeHistory(c *Ctx, id int) {
 				action()
 			}
 			if cfg.churn && !lateRevoked {
-				// directed: the late pillar has been elected for at least two ticks; it is revoked in the first tick of an epoch,
-				// so it is part of the first two ticks of that epoch and absent from the rest
+				// directed: the late pillar is part of the elections (two ticks after its registration); it is revoked in the first
+				// tick of an epoch, so it is part of the first two ticks of that epoch and absent from the rest
 				tick := (frontierTs() - r.genesis) / tickSec
-				if tick >= regTick+4 && tick%ticksPerEpoch == 0 && n.Height()%3 == 0 {
+				if tick >= regTick+3 && tick%ticksPerEpoch == 0 && n.Height()%3 == 0 {
 					if info, err := definition.GetPillarInfo(n.Chain().GetFrontierAccountStore(types.PillarContract).Storage(), "TEST-pillar-late"); err == nil {
 						fm, _ := n.Chain().GetFrontierMomentumStore().GetFrontierMomentum()
 						if info.RevokeTime != 0 {
@@ -1562,7 +1562,7 @@ func rewardsNodeHistory(c *Ctx, id int) {
 	}
 	c.HitN("credits", r.credited)
 	c.Hit("history-complete")
-	if c.Args["audit"] != "0" {
+	if c.Args["audit"] != "0" && c.Args["audit"] != "ask-only" {
 		r.finalAudit()
 		if r.failed {
 			return
